@@ -216,6 +216,7 @@ func (rn *runner) corpus() {
 	rn.do(op{Kind: kDelegate, U: 0, V: 0, Amt: bi(1_000_000)}, "corpus")
 	rn.do(op{Kind: kDelegate, U: 1, V: 0, Amt: bi(3_000_000)}, "corpus")
 	rn.do(op{Kind: kDelegate, U: 2, V: 1, Amt: bi(2_000_000)}, "corpus")
+	rn.do(op{Kind: kBlock, Dt: 1000 * ms}, "corpus")
 	rn.do(op{Kind: kBlock, Dt: 1300 * ms, Fees: coins("urise", bi(3_000_000), "uusdc", bi(500_000))}, "corpus")
 	rn.do(op{Kind: kBlock, Dt: 1300 * ms}, "corpus")
 	// checkpoint witness: the same rewards must not be claimable again, and u1 must still be paid
@@ -262,6 +263,9 @@ func (rn *runner) corpusZeroSaver() {
 	rn.do(op{Kind: kDelegate, U: 0, V: 2, Amt: m}, tag)
 	rn.do(op{Kind: kUndelegate, U: 3, V: 2, Amt: m, Rcp: -3}, tag) // leaves completely, returns below
 	rn.do(op{Kind: kDelegate, U: 1, V: 1, Amt: m}, tag)
+	// (x/distribution gives a delegation no rewards for the block in which it was touched: the
+	// messages above belong to the next block, so let that block pass before fees arrive)
+	rn.do(op{Kind: kBlock, Dt: 1300 * ms}, tag)
 	f1 := coins("urise", bi(3_000_000), "uusdc", bi(600_000))
 	rn.do(op{Kind: kBlock, Dt: 1300 * ms, Fees: f1}, tag)
 	rn.do(op{Kind: kBlock, Dt: 1300 * ms}, tag)
@@ -277,6 +281,7 @@ func (rn *runner) corpusZeroSaver() {
 	}
 	rn.do(op{Kind: kDelegate, U: 3, V: 2, Amt: m}, tag) // returning delegator
 	rn.do(op{Kind: kDelegate, U: 2, V: 1, Amt: m}, tag) // new delegator
+	rn.do(op{Kind: kBlock, Dt: 1300 * ms}, tag)
 	f2 := coins("urise", bi(24_000_000), "uusdc", bi(4_800_000))
 	rn.do(op{Kind: kBlock, Dt: 1300 * ms, Fees: f2}, tag)
 	rn.do(op{Kind: kBlock, Dt: 1300 * ms}, tag)
@@ -289,6 +294,9 @@ func (rn *runner) corpusZeroSaver() {
 // Run generates n cases from seed, runs them on the real application and writes
 // cases_*.v and stats.json into outDir.
 func Run(seed int64, n int, outDir string) error {
+	if n == -8 {
+		return dbgSlash(outDir)
+	}
 	rn := newRunner(seed)
 	defer rn.w.h.Close()
 	rn.st = emit.NewStats("C10", seed, "step: one message or block on the full application, compared with the model on the dumped state; non-trivial when a claim (explicit or inside delegate/undelegate) paid > 0 while >= 2 delegators of the validator held different share amounts, distinct by (validator, user, amounts paid). pure: types.Calculate* on generated integers")
